@@ -107,9 +107,11 @@ class Scope:
                 self.roots = [(rc, nb if (rc is c and rb is b) else rb) for rc, rb in self.roots]
         if used_all:
             self.inlined_helpers = used_all
+            # (a closure of an expanded helper that was not itself expanded - the function it hands to `try_fold`, `map_err` .. -
+            # stays a member and is judged as the closures of the impls are)
             self.members = [(c, b, role) for c, b, role in self.members
-                            if not (role in ("helper", "helper-closure") and c.name == "deserr" and (b.path in used_all or b.root in used_all))
-                            and not (role == "closure" and b.path in used_all)]   # a closure expanded where a helper calls it
+                            if not (role == "helper" and c.name == "deserr" and b.path in used_all)
+                            and not (role in ("closure", "helper-closure") and b.path in used_all)]   # a closure expanded where a helper calls it
 
     def view(self, crate, body):
         k = (crate.name, crate.file, body.path)
